@@ -158,4 +158,17 @@ CLAIMS["C10"] = {
     "note": "Trusts: json round-trip of floats/inf/bool/np.float64; SQLite ON CONFLICT semantics; loops of run() unrolled 0/1 (typestate has 2 states).",
 }
 
+CLAIMS["C02"] = {
+    "category": "other",
+    "technique": "schema conformance with Deb's counter/peeling algorithm: affine loop-range rules (pair coverage), per-verdict effect table over enumerated body paths, affine index tracking of the peel, ownership scan of the bookkeeping features",
+    "text": "Shows that fast_nondominated_sorting is an instance of Deb's algorithm, which ranks correctly for every strict partial order: "
+            "the loops enumerate each unordered pair once and every visited pair reaches the comparator exactly once on every path; the "
+            "bookkeeping effects per verdict are the mirror-symmetric ones; counters, ranks and dominated-lists are reset with a fresh list "
+            "per member; the first-front test sits after a member's inner loop; the peel iterates the front just tested non-empty, "
+            "decrements each recorded id exactly once, ranks a member when its counter reaches zero with previous+1 into the list of that "
+            "index; nothing else writes the bookkeeping. Because the argument is about the algorithm's shape it covers every population, "
+            "order and objective count; termination and 'nobody unranked' follow from the theorem, not from a separate proof.",
+    "note": "Trusts: the textbook theorem for the schema; unique ids; the comparator is a strict partial order with verdicts {0,1,2} (C01).",
+}
+
 NOT_APPLICABLE = {}
